@@ -27,7 +27,7 @@ from common import coq_list, coq_z
 
 TAG = "C16_%d" % os.getpid()    # scratch-file prefix in coq/build, unique per process
 THEOREMS = ["C16_refines", "C16_no_lost_update", "C16_fresh_commit_visible", "C16_safe_delete",
-            "C16_child_calls", "C16_lost_answer_add", "C16_lost_answer_commit", "C16_lost_answer_safe_delete", "C16_discard_keeps_other_revisions", "C16_safe_delete_gone", "C16_lookup_live", "C16_lookup_missing", "C16_membership", "C16_len", "C16_fault_total",
+            "C16_child_calls", "C16_lost_answer_add", "C16_lost_answer_commit", "C16_lost_answer_safe_delete", "C16_lost_answer_pool_add", "C16_lost_answer_pool_commit", "C16_lost_answer_pool_safe_delete", "C16_lost_answer_pool_lookup", "C16_discard_keeps_other_revisions", "C16_safe_delete_gone", "C16_lookup_live", "C16_lookup_missing", "C16_membership", "C16_len", "C16_fault_total",
             "C16_unquote_quote", "C16_quote_inj", "C16_unquote_transform", "C16_transform_inj",
             "C16_doc_url_inj", "C16_key_agreement", "C16_routing", "C16_reserved_id_refuted", "C16_second_replica_refuted", "C16_example"]
 
@@ -408,6 +408,11 @@ def _run_history(case, E, fake, db, store):
                     out = enc_exc(e)
                 sent = fake.n + (1 if fake.drops else 0)
                 hit = fake.fault_hits > 0
+                if (hit and fault[1][0] == "lost" and case.get("transport") != "noretry" and fake.repeats
+                        and fake.lost_request[0] in ("GET", "HEAD")):
+                    # the answer to a lookup was lost and the connection pool has asked again: nothing was applied
+                    # twice, the call is judged like an undisturbed one
+                    hit = False
                 fake.arm()
         except Exception as e:           # the harness itself failed (second actor, ...)
             bad(k, kind, "harness-" + type(e).__name__, f"harness error: {type(e).__name__}: {e}")
@@ -751,7 +756,7 @@ def gen_case(rng, maxlen):
         fault = None
         if kind in REQ_COUNT and rng.random() < pfault:
             fault = [rng.randrange(REQ_COUNT[kind]) if rng.random() < .6 else 0, list(rng.choice(FAULTS))]
-            if transport == "noretry" and rng.random() < .3:
+            if rng.random() < .3:
                 fault[1] = list(LOST)
         ops.append([op, fault])
     case = {"pool": pool, "ops": ops}
@@ -894,9 +899,10 @@ def fault_matrix():
                     pre = pre + [[["discard", 0, 0], None]]
                 cases.append({"pool": pool, "ops": pre + [[op, [pos, list(ft)]], [["len"], None], [["iter"], None],
                                                           [op, None], [["get", "x/y z"], None]]})
-            for ft in (("drop",), LOST):     # without urllib3's own repetitions; answer lost after processing
+            # answer lost after processing, on the module's pool and on one without urllib3's own repetitions
+            for ft, tr in ((("drop",), "noretry"), (LOST, "noretry"), (LOST, "default")):
                 pre = list(prefix) + ([[["discard", 0, 0], None]] if name == "add" else [])
-                cases.append({"pool": pool, "transport": "noretry",
+                cases.append({"pool": pool, "transport": tr,
                               "ops": pre + [[op, [pos, list(ft)]], [["len"], None], [["iter"], None],
                                             [op, None], [["get", "x/y z"], None], [["update", 0], None],
                                             [["modify", 0, 6], None], [["commit", 0], None]]})
@@ -931,7 +937,8 @@ Definition oCoC x := CommitChild (n x).
 Definition nf (o : op) : op * fspec := (o, None).
 Definition fs (o : op) (k c : Z) : op * fspec := (o, Some (n k, FStatus (n c))).
 Definition fg (o : op) (k : Z) : op * fspec := (o, Some (n k, FGarbage)).
-Definition fd (o : op) (k : Z) : op * fspec := (o, Some (n k, FDrop TOther)).
+Definition fd (o : op) (k : Z) : op * fspec := (o, Some (n k, FDropPool)).
+Definition flp (o : op) (k : Z) : op * fspec := (o, Some (n k, FLostPool)).
 Definition fdp (o : op) (k : Z) : op * fspec := (o, Some (n k, FDrop TProto)).
 Definition fl (o : op) (k : Z) : op * fspec := (o, Some (n k, FLost TProto)).
 Definition case (pool : list (string * Z)) (ops : list (op * fspec)) (h : Z) :=
@@ -990,7 +997,7 @@ def coq_step(op, fault, rows, ids, noretry=False):
     if ft[0] == "garbage":
         return f"fg ({o}) {pos}"
     if ft[0] == "lost":
-        return f"fl ({o}) {pos}"
+        return f"fl ({o}) {pos}" if noretry else f"flp ({o}) {pos}"
     return f"fdp ({o}) {pos}" if noretry else f"fd ({o}) {pos}"
 
 
